@@ -21,7 +21,7 @@ from . import h5util as H
 ID = "C10"
 MOD = "harness.props.c10"
 LEAN = dict(modules=["MetadorModel.Props.C10"],
-            theorems=["MetadorModel.C10." + n for n in ['stub_identity', 'stub_patch_accepted', 'stub_patch_same_block']],
+            theorems=["MetadorModel.C10." + n for n in ['stub_identity', 'stub_patch_accepted', 'stub_patch_same_block', 'stub_skeleton', 'stub_single']],
             drivers=["drv_mrg"])
 
 
@@ -191,7 +191,7 @@ def impl(case):
             tags.append("update-effective")
         if any(op[0] == "del" and H.is_ok(o) for op, o in zip(upd, out_direct)):
             tags.append("update-deletes")
-        out += [H.show_dump(d_real), H.show_skel(d_real), "ok", "ok"] + [H.oc(x) for x in out_direct] + [H.show_dump(dump_direct)]
+        out += [H.show_dump(d_real), "wf T", H.show_skel(d_real), "ok", "ok"] + [H.oc(x) for x in out_direct] + [H.show_dump(dump_direct)]
         out += ["ok", "ok", H.show_skel(d_stub), H.show_dump(d_stub), "ok"] + [H.oc(x) for x in out_stub] + ["ok"]
         if dump_via is not None:
             out.append(H.show_dump(dump_via))
@@ -210,7 +210,7 @@ def lines(case):
         else:
             L.append(H.op_line(op))
     upd = [H.op_line(op) for op in case.get("update") or []]
-    L += ["dump", "skel", "save", "patch"] + upd + ["dump"]
+    L += ["dump", "wf", "skel", "save", "patch"] + upd + ["dump"]
     L += ["restore", "stub", "skel", "dump", "patch"] + upd + ["graft", "dump"]
     return L
 
